@@ -316,6 +316,8 @@ def tle_dir(ctx):
             if nm not in ("noaa14", "noaa16"):
                 with open(os.path.join(d, "TLE_%s.txt" % nm), "a") as fh:
                     fh.write(retimed_tle(NOAA14_TLE, ["%02d%03d.04713399" % (y % 100, doy), "%02d%03d.96799836" % (y % 100, doy)]))
+                    if nm == "noaa10":
+                        fh.write(NOAA14_TLE)      # the accessor checks read a NOAA-10 file dated 2000-322
         src = "/repo/gapfilled_tles/TLE_noaa16.txt"
         if os.path.exists(src):
             import shutil
